@@ -341,6 +341,9 @@ pub fn unit_probe(input: &str, filename: &Option<std::path::PathBuf>) {
 			for _ in 0..(us % 4) { std::thread::yield_now(); }
 		}
 	}
+	if std::env::var_os("VICUT_VERIF_RECORDS").is_some() {
+		CUR_UNIT.with_borrow_mut(|u| *u = Some((input.to_string(), filename.as_ref().map(|p| p.to_string_lossy().to_string()))));
+	}
 	if let Ok(path) = std::env::var("VICUT_VERIF_TRACE") {
 		let seq = UNIT_SEQ.with(|c| { let v = c.get(); c.set(v + 1); v });
 		let tid = format!("{:?}", std::thread::current().id());
@@ -351,5 +354,23 @@ pub fn unit_probe(input: &str, filename: &Option<std::path::PathBuf>) {
 			buf.push('\n');
 			f.write_all(buf.as_bytes()).ok();
 		}
+	}
+}
+
+thread_local! {
+	static CUR_UNIT: std::cell::RefCell<Option<(String, Option<String>)>> = const { std::cell::RefCell::new(None) };
+}
+
+/// Called where `execute()` returns its records: append `{file, text, records}` to
+/// the file named by `VICUT_VERIF_RECORDS` (one line per unit of work).
+pub fn dump_records(recs: &[Vec<(String,String)>]) {
+	let Ok(path) = std::env::var("VICUT_VERIF_RECORDS") else { return };
+	let Some((text, file)) = CUR_UNIT.with_borrow_mut(|u| u.take()) else { return };
+	let tid = format!("{:?}", std::thread::current().id());
+	let line = json!({"tid": tid, "file": file, "text": text, "records": recs});
+	if let Ok(mut f) = std::fs::OpenOptions::new().create(true).append(true).open(path) {
+		let mut buf = line.to_string();
+		buf.push('\n');
+		f.write_all(buf.as_bytes()).ok();
 	}
 }
